@@ -146,12 +146,11 @@ class C18(object):
         if m in (3, 4):
             spec = M.gen_spec(rng, n_zones=rng.choice([2, 2, 3]), ext=False, maxtime=rng.randint(3, 4), cross=False)
             return {'kind': 'embed', 'spec': spec, 'unused_ext': rng.random() < 0.5}
-        # alternate: builders that embed (SIM, SIMEX1) / sets that include PC (listed open finding D11b)
-        names = ['SIM', 'SIMEX1'] if (idx // 6) % 2 == 0 else ['SIM', 'SIMEX1', 'PC', 'PC']
+        names = ['SIM', 'SIMEX1', 'PC', 'PC']
         k = rng.choice([2, 2, 3])
         return {'kind': 'embed_book', 'builders': [rng.choice(names) for _ in range(k)],
                 'unused_ext': rng.random() < 0.5, 'maxtime': rng.randint(3, 6),
-                'book_exogenous': False}
+                'book_exogenous': rng.random() < 0.5}
 
     def run_case(self, case):
         return getattr(self, 'run_' + case['kind'])(case)
@@ -239,6 +238,8 @@ class C18(object):
 
         def wire(mod_builder, mod):
             # the book builders with their own exogenous off: supply government demand (and the rate) explicitly
+            if case['book_exogenous']:
+                return
             c = mod_builder.Country
             for s in c.SectorList:
                 if 'DEM_GOOD' in s.EquationBlock and s.Code in ('GOV', 'TRE'):
@@ -251,7 +252,7 @@ class C18(object):
         alone = []
         for i, name in enumerate(case['builders']):
             cls = ambient.book_builders()[name]
-            b = cls(country_code='B%d' % i, use_book_exogenous=False)
+            b = cls(country_code='B%d' % i, use_book_exogenous=case['book_exogenous'])
             mod = b.build_model()
             wire(b, mod)
             mod.MaxTime = T
@@ -268,7 +269,7 @@ class C18(object):
         builders = []
         for i, name in enumerate(case['builders']):
             cls = ambient.book_builders()[name]
-            b = cls(country_code='B%d' % i, model=joint, use_book_exogenous=False)
+            b = cls(country_code='B%d' % i, model=joint, use_book_exogenous=case['book_exogenous'])
             b.build_model()
             wire(b, joint)
             builders.append(b)
@@ -278,11 +279,8 @@ class C18(object):
             with contextlib.redirect_stdout(io.StringIO()):
                 joint.main()
         except Exception as e:
-            mech = 'embedded_book_build_fails'
-            if 'PC' in case['builders'] and 'CB__INTDEP' in (str(e) + joint.FinalEquations):
-                mech = 'D11b_pc_builder_literal_full_code'
-            rec.violate('embedded_book_build_fails', {'builders': case['builders'], 'err': repr(e)[:300]},
-                        mechanism=mech)
+            rec.violate('embedded_book_build_fails', {'builders': case['builders'], 'err': repr(e)[:300],
+                                                      'book_exogenous': case['book_exogenous']})
             return {'verdict': 'violated', 'shape': shape, 'counters': rec.counters, 'violations': rec.violations,
                     'nontrivial': True}
         JV = joint.EquationSolver.TimeSeries
